@@ -43,7 +43,7 @@ ASSUMPTIONS = [
 ]
 GEN_DET = ('===GEN_DET===\nMETA:\n  TYPE::SCHEMA\n  VERSION::"1.0.0"\n---\nPOLICY:\n  VERSION::"1.0"\n  UNKNOWN_FIELDS::REJECT\n---\nFIELDS:\n'
            '  NAME::["ex"∧REQ]\n  STATUS::["ACTIVE"∧REQ∧ENUM[DRAFT,DEPRECATED,DELETED,ACTIVE,ACTIVATING]]\n  COUNT::[5∧OPT∧TYPE[NUMBER]∧RANGE[1,10]]\n'
-           '  KIND::["a"∧OPT∧ENUM[alpha,alpine,beta]]\n===END===\n')
+           '  KIND::["a"∧OPT∧ENUM[alpha,alpine,beta]]\n  ROUTED::["r"∧OPT→§AUDIT_LOG]\n===END===\n')  # (ROUTED goes to a target only a document can declare)
 COLLIDE = ['===COLL===\nMETA:\n  TYPE::SCHEMA\n  VERSION::"1.0"\n---\nFIELDS:\n  CONTENT::["x"∧REQ]\n  FIELD::["y"∧OPT]\n  A-B::["z"∧OPT]\n  A_B::["z"∧OPT]\n  Name::["n"∧OPT]\n  NAME::["n"∧OPT]\n===END===\n',
            '===COLL2===\nMETA:\n  TYPE::SCHEMA\n  VERSION::"1.0"\n---\nFIELDS:\n  ROOT::["x"∧REQ∧TYPE[NUMBER]]\n  WS::["y"∧OPT∧RANGE[1,5]]\n  NUMBER::["z"∧OPT]\n===END===\n']
 
@@ -64,6 +64,10 @@ def build_calls(ctx: Ctx, n_docs: int):
     inst = [instance(s, k, e, c) for s, k, e, c in [("D", "al", ["ZZ", "AA", "MM"], 50), ("DE", "a", ["B1", "A1"], 0), ("ACTIV", "alp", [], "\"x\""), ("A", "b", ["Q"], 5),
                                                      ("ACTIVE", "alpha", ["Z9", "Z1", "Z5", "Z3"], 11), ("nope", "zz", ["X", "Y"], -1)]]
     # a META field holding a holographic pattern: its validation error embeds the value's repr (must be address-free)
+    # the custom routing target: one document declares it with a block annotation, the next ones do not
+    inst.append(instance("ACTIVE", "alpha", [], 5).replace("===END===", "  ROUTED::x\nARCHIVE[→§AUDIT_LOG]:\n  X::1\n===END==="))
+    inst.append(instance("ACTIVE", "alpha", [], 5).replace("===END===", "  ROUTED::x\n===END==="))
+    inst.append(instance("DRAFT", "beta", [], 3).replace("===END===", "  ROUTED::y\nOTHER[→§SOMEWHERE]:\n  X::1\n===END==="))
     inst.append('===P===\nMETA:\n  TYPE::T\n  STATUS::[false∧CONST[X]]\n  VERSION::["1.0"∧REQ∧ENUM[A,B]→§SELF]\n===END===\n')
     calls = []
     profiles = ["STRICT", "STANDARD", "LENIENT", "ULTRA"]
